@@ -22,7 +22,10 @@ def gen_cases(ctx):
     cases = []
     for ind in COMPOSITES:
         grid = params_grid(ind, [1, 2, 3, 5])
-        grid = r.sample(grid, min(len(grid), 4 if not ctx.thorough else 14))
+        if ind in ("MACD", "PPO"):
+            grid = [(a, b, c, 0.0) for a in (1, 2, 3) for b in (1, 2, 3) for c in (1, 2, 3)] + [(9, 26, 9, 0.0), (26, 12, 26, 0.0)]
+        else:
+            grid = r.sample(grid, min(len(grid), 4 if not ctx.thorough else 14))
         if ctx.thorough:
             grid += params_grid(ind, [14, 40])[:3]
         for gi, pr in enumerate(grid):
